@@ -40,6 +40,8 @@ for r in (1,2,3,4):
     for m in rs:
         f=', '.join(m.get(key,[])) or '—'
         d=', '.join(m['detected_by']) or ('**missed** — '+m.get('why_missed',''))
+        if m.get('note') and m['detected_by']:
+            d+=' — '+m['note']
         out.append(f"| {m['id']} | {m['change']} | {m['needs_to_manifest']} | {f} | {d} |\n")
 open('/verif/seeded/README.md','w').write(''.join(out))
 print("ok", len(rows))
